@@ -31,7 +31,8 @@
 (***************************************************************************)
 EXTENDS BiscSpec, Json, TLC
 
-CONSTANTS Inputs     \* set of [id, SG: set of mesh patterns, keys: set of lengths, bad: sequence of permutations, limit]
+CONSTANTS Mode,      \* "as_coded", or "keep_failing": a wrong design in which a failing candidate simply stays (must be refuted)
+          Inputs     \* set of [id, SG: set of mesh patterns, keys: set of lengths, bad: sequence of permutations, limit]
 
 VARIABLES inp, phase, monitor, k
 vars == <<inp, phase, monitor, k>>
@@ -62,7 +63,7 @@ Test == /\ phase = "test" /\ k <= Len(inp.bad)
                failing == {m \in monitor : Fails(m, q)}
                grow == {m \in failing : inp.limit = 0 \/ Cardinality(m) < inp.limit}
                kids == {m \cup {S} : m \in grow, S \in Saviours(inp, q) \cup Larger(inp, q)}
-               after == IF failing = {} THEN monitor ELSE MinimalFamily((monitor \ failing) \cup kids)
+               after == IF failing = {} \/ Mode = "keep_failing" THEN monitor ELSE MinimalFamily((monitor \ failing) \cup kids)
            IN IF monitor = {} THEN phase' = "gaveup" /\ UNCHANGED <<monitor, k>>
               ELSE IF after = {} THEN phase' = "gaveup" /\ monitor' = {} /\ k' = k + 1
               ELSE monitor' = after /\ k' = k + 1 /\ UNCHANGED phase
